@@ -391,8 +391,14 @@ func (r *Run) FinishNoExit() int {
 		ev["assumptions"] = []string{}
 	}
 	b, _ := json.MarshalIndent(ev, "", " ")
-	os.MkdirAll(filepath.Join(Root(), "evidence"), 0o755)
-	if err := os.WriteFile(filepath.Join(Root(), "evidence", r.ID+".json"), b, 0o644); err != nil {
+	// a run against another copy of the repository (mutant, candidate fix) must not overwrite the
+	// evidence of the real tree
+	evdir := filepath.Join(Root(), "evidence")
+	if alt := os.Getenv("VERIF_REPO"); alt != "" && alt != "/repo" {
+		evdir = filepath.Join(Root(), "evidence", "alt")
+	}
+	os.MkdirAll(evdir, 0o755)
+	if err := os.WriteFile(filepath.Join(evdir, r.ID+".json"), b, 0o644); err != nil {
 		EngineError(r.ID, "write evidence: %v", err)
 	}
 	if exit == 0 && (r.evaluations < 1 || len(r.distinct) < 2) {
